@@ -13,7 +13,7 @@ import (
 func init() {
 	register(&Prop{
 		ID: "C06", Level: "exploration",
-		Rule: "one case = (a) a writer task parked at one stage of a write transaction's life - lock just taken, root loaded, after k uncommitted writes, inside an Updates function, after Snapshot()/Iter(), after Truncate (all methods or one), at commit, before the store, after the store with the lock still held, before unlock - while 1-4 reader tasks run 1-3 read entry points each to completion (ServeHTTP incl. trailing-slash/404/405/OPTIONS answers and handlers that read the router, Lookup+Close, Reverse, Has, Route, Len, Iter.All/Methods/Prefix/Routes/Reverse, read-only Txn with Commit/Abort and Snapshot, View, Stats, NewRoute); the writer is released only after every reader finished, so a reader that needs the writer lock shows up as lock-waiting (instrumented Lock) or as a goroutine blocked in a sync primitive (stall detector), both violations; or (b) the converse: readers parked mid-iteration / holding a Lookup context / inside a handler / inside View while 1-2 writers must run to completion. Router options are drawn per run; one run in six works on a tree deeper than 25 levels (iterators then size their stack from the tree depth). Non-trivial: at least one reader ran while the writer was parked (a) or a writer committed while a reader was parked (b); distinct = hash of (stage, reader programs, schedule).",
+		Rule: "one case = (a) a writer task parked at one stage of a write transaction's life - lock just taken, root loaded, after k uncommitted writes, inside an Updates function, after Snapshot()/Iter(), after Truncate (all methods or one), at commit, before the store, after the store with the lock still held, before unlock - while 1-4 reader tasks run 1-3 read entry points each to completion (ServeHTTP incl. trailing-slash/404/405/OPTIONS answers and handlers that read the router, Lookup+Close, Reverse, Has, Route, Len, Iter.All/Methods/Prefix/Routes/Reverse, read-only Txn with Commit/Abort and Snapshot, a read-only Txn that outlived two commits used for 36-99 lookups, View, Stats, NewRoute); the writer is released only after every reader finished, so a reader that needs the writer lock shows up as lock-waiting (instrumented Lock) or as a goroutine blocked in a sync primitive (stall detector), both violations; or (b) the converse: readers parked mid-iteration / holding a Lookup context / inside a handler / inside View while 1-2 writers must run to completion. Router options are drawn per run; one run in six works on a tree deeper than 25 levels (iterators then size their stack from the tree depth). Non-trivial: at least one reader ran while the writer was parked (a) or a writer committed while a reader was parked (b); distinct = hash of (stage, reader programs, schedule).",
 		Run:  runC06, Quick: 96000, Thorough: 16000000,
 		Real: commonReal, Stub: commonStub,
 		Domain:      []string{"the static half of the quantifier (every call path reachable in the call graph) is static analysis and is not done; reach is dynamic: every public read entry point is driven"},
@@ -21,7 +21,7 @@ func init() {
 	})
 }
 
-var c06Reads = []string{"serve", "serve_inner", "lookup", "reverse", "has", "route", "len", "iter_all", "iter_methods", "iter_prefix", "iter_routes", "iter_reverse", "rotxn", "rotxn_snapshot", "view", "stats", "newroute", "clone"}
+var c06Reads = []string{"serve", "serve_inner", "lookup", "reverse", "has", "route", "len", "iter_all", "iter_methods", "iter_prefix", "iter_routes", "iter_reverse", "rotxn", "rotxn_stale", "rotxn_snapshot", "view", "stats", "newroute", "clone"}
 
 func (cw *concWorld) c06Read(s *sim.Sched, kind string, a, b int, park func()) {
 	k := cw.keys[a%len(cw.keys)]
@@ -113,6 +113,35 @@ func (cw *concWorld) c06Read(s *sim.Sched, kind string, a, b int, park func()) {
 		} else {
 			txn.Abort()
 		}
+	case "rotxn_stale":
+		// a read-only transaction that has outlived its version (commits happened since it was opened), used for a long
+		// series of lookups: a view of the past needs nothing from the writers of the present, however long it is used
+		var txn *fox.Txn
+		if n := len(cw.stale); n > 0 {
+			txn, cw.stale = cw.stale[n-1], cw.stale[:n-1]
+		} else {
+			txn = r.Txn(false)
+		}
+		for i, n := 0, 36+b; i < n; i++ {
+			switch (a + i) % 4 {
+			case 0:
+				txn.Has(k.Method, k.Pat.Raw)
+			case 1:
+				txn.Route(k.Method, k.Pat.Raw)
+			case 2:
+				_, _ = txn.Reverse(pr.Method, pr.Host, pr.Path)
+			default:
+				if rt, cc, _ := txn.Lookup(world.NewRW(world.NewConn()), world.NewRequest(pr.Method, pr.Host, pr.Path, "", "", nil)); rt != nil {
+					cc.Close()
+				}
+			}
+			if i%8 == 7 {
+				s.Yield(sim.PtHeld)
+			}
+		}
+		park()
+		txn.Len()
+		txn.Abort()
 	case "rotxn_snapshot":
 		// a snapshot of a read-only transaction (and of a managed one) is a read like any other
 		txn := r.Txn(false)
@@ -172,6 +201,20 @@ func runC06(src sim.Source, o Opts) *Result {
 			tag++
 			cw.execWrite(cw.w.R, COp{Kind: "handle", Key: i, Tag: tag})
 		}
+	}
+	// read-only transactions for the "rotxn_stale" readers, opened now; two commits that leave the route set as it is follow
+	for range 8 {
+		cw.stale = append(cw.stale, cw.w.R.Txn(false))
+	}
+	if _, err := cw.w.R.Handle("GET", ballastPrefix+"stale", world.Handler(0)); err == nil {
+		_, err = cw.w.R.Delete("GET", ballastPrefix+"stale")
+		if err != nil {
+			res.Trouble = "stale setup: " + err.Error()
+			return res
+		}
+	} else {
+		res.Trouble = "stale setup: " + err.Error()
+		return res
 	}
 	s := sim.NewSched(src)
 	s.KeepTrace = o.Trace
